@@ -51,6 +51,7 @@ class Terminal:
 class Interp:
     MAX_STEPS = 3000
     MAX_BUDGET_FAILS = 12
+    MAX_TERMINALS = 8000
 
     def __init__(self, prog):
         self.prog = prog
@@ -71,7 +72,17 @@ class Interp:
     def explore(self, init_states, on_terminal, stop_kind=None):
         work = list(init_states)
         budget_fails = 0
+        nterm = [0]
+        inner = on_terminal
+
+        def on_terminal(t, inner=inner):
+            nterm[0] += 1
+            inner(t)
         while work:
+            if nterm[0] > self.MAX_TERMINALS or len(work) > 4 * self.MAX_TERMINALS:
+                # fail closed instead of exhausting memory: the case split has exploded (usually an inconsistent heap that keeps branching)
+                inner(Terminal("undecided", work[-1], msg="exploration abandoned: more than %d cases for one entry" % self.MAX_TERMINALS))
+                return
             if budget_fails >= self.MAX_BUDGET_FAILS:
                 # fail closed, but do not enumerate an unbounded family of identical failures
                 self._finish(Terminal("undecided", work[-1], msg="exploration abandoned: %d paths exhausted the step budget" % budget_fails), on_terminal, work)
